@@ -72,7 +72,7 @@ CLASSES = {
                                   fields={'members': ListT(DESC)}),
     'FixedReplicationDescriptor': dict(bases=['ReplicationDescriptor'], module='pybufrkit.descriptors', fields={}),
     'DelayedReplicationDescriptor': dict(bases=['ReplicationDescriptor'], module='pybufrkit.descriptors',
-                                         fields={'factor': Ref('ElementDescriptor')}),
+                                         fields={'factor': DESC}),      # an ElementDescriptor, or an Undefined* placeholder (refused by the walker)
     'OperatorDescriptor': dict(bases=['Descriptor'], module='pybufrkit.descriptors', fields={}),
     'SequenceDescriptor': dict(bases=['Descriptor'], module='pybufrkit.descriptors',
                                fields={'members': ListT(DESC), 'name': STR}),
